@@ -151,6 +151,9 @@ func checkC13(w *World, st core.Status, r *RunResult) []Violation {
 	}
 	for _, o := range w.Obs {
 		p := o.Plan
+		if transportLimit(o, r) {
+			continue
+		}
 		tag := w.Sc.Clients[p.Client].Proto.String() + "/" + p.Kind.String()
 		add := func(class, msg string) {
 			vs = append(vs, Violation{Class: "C13/" + class + "/" + tag, Msg: p.ID + ": " + msg})
